@@ -112,3 +112,43 @@ def keyword_texts():
         for f in sorted(forms):
             out += [f, f"x {f} y\n", f"{f}'s", f"{f}1", f"{f}, {f}"]
     return out
+
+
+def scale_texts():
+    """Unusually long or oddly placed inputs: long words/numbers/strings/comments, many tokens and lines, multi-byte
+    characters at the ends of the source and around token boundaries, special case mappings."""
+    t = []
+    t.append("x" * 300 + " is 5\nsay " + "x" * 300 + "\n")
+    t.append("X" + "y" * 255 + " " + "Z" + "w" * 256 + " is 1\n")
+    t.append("say " + "7" * 50 + "\n")
+    t.append("say " + "9" * 400 + "\n")
+    t.append("say 0." + "3" * 80 + "\n")
+    t.append("say 1" + "0" * 308 + "\nsay 1" + "0" * 309 + "\n")
+    t.append('say "' + "lorem ipsum " * 300 + '"\n')
+    t.append('say "' + "é🎸" * 500 + '"\n')
+    t.append("(" + "comment line\n" * 400 + ") say 1\n")
+    t.append('say "' + "line\n" * 300 + '"' + "'s x\nsay 2\n")
+    t.append("say 1" + " + 1" * 1000 + "\n")
+    t.append("\n" * 600 + "say 1\n" + "\n" * 600)
+    t.append("say 1\n" * 800)
+    t.append("rock the list with " + ", ".join(str(i) for i in range(400)) + "\n")
+    t.append("say 1, " * 300 + "2\n")
+    t.append("Tommy was " + "a rockstar " * 200 + "\n")
+    t.append("Tommy says " + "hello world " * 400 + "\n")
+    t.append("é")
+    t.append("say é")
+    t.append("🎸")
+    t.append("say 1 🎸")
+    t.append("é is 1\nsay É\n")
+    t.append("İstanbul is 1\nsay i̇stanbul\nsay İSTANBUL\n")
+    t.append("Straße is 2\nsay STRASSE\nsay straße\n")
+    t.append("ΣΑΣ is 3\nsay σας\nsay σασ\n")
+    t.append("ǅemal is 4\nsay ǆemal\nsay Ǆemal\n")
+    t.append("say 1 say 2 say 3\n")
+    t.append("say 1　+ 2\n")
+    t.append("x" * 1023 + " is 1\n" + "y" * 1024 + " is 2\n" + "z" * 1025 + " is 3\n")
+    t.append('say "' + "a" * 4095 + '"\nsay "' + "b" * 4096 + '"\nsay "' + "c" * 4097 + '"\n')
+    t.append("'" * 300 + "x" + "'" * 300 + "\n")
+    t.append("say " + "not " * 150 + "true\n")
+    t.append("if 1\n" * 60 + "say 1\n" + "\n" * 61 + "say 2\n")
+    return t
